@@ -259,6 +259,21 @@ pub(crate) enum SpanInfo {
     Vec(Span, Vec<SpanInfo>),
 }
 
+/// Like `Cons`, the span information of a list is a chain with one link per
+/// element; unlink it iteratively, so that dropping it does not recurse once
+/// per element.
+impl Drop for SpanInfo {
+    fn drop(&mut self) {
+        let mut rest = match self.cons_mut() {
+            Some(meta) => std::mem::replace(&mut meta[1], SpanInfo::Prim(Span::empty())),
+            None => return,
+        };
+        while let Some(meta) = rest.cons_mut() {
+            rest = std::mem::replace(&mut meta[1], SpanInfo::Prim(Span::empty()));
+        }
+    }
+}
+
 impl SpanInfo {
     fn span(&self) -> Span {
         match self {
